@@ -459,25 +459,90 @@ func runC10(c *Ctx) {
 			c.Undecided("R10.4", "anchor:Snapshot."+m, "entities/bug", "not found")
 			continue
 		}
-		ok := false
-		for _, g := range cmpGuards(fn, func(r *ssa.Return) bool { return enclosingLoopHeader(r.Block()) != nil || len(r.Block().Preds) == 1 && enclosingLoopHeader(r.Block().Preds[0]) != nil }) {
-			if g.Op == token.EQL {
-				cx, okx := g.X.(*ssa.Call)
-				cy, oky := g.Y.(*ssa.Call)
-				if okx && oky {
-					nx, _ := callName(cx.Common())
-					ny, _ := callName(cy.Common())
-					if strings.HasSuffix(nx, ".Id") && strings.HasSuffix(ny, ".Id") {
-						ok = true
+		// the list appended to
+		field := ""
+		okApp := false
+		for _, b := range fn.Blocks {
+			for _, ins := range b.Instrs {
+				if st, isSt := ins.(*ssa.Store); isSt {
+					if fa, isFA := st.Addr.(*ssa.FieldAddr); isFA {
+						if ap, isCall := st.Val.(*ssa.Call); isCall {
+							if bi, isB := ap.Common().Value.(*ssa.Builtin); isB && bi.Name() == "append" && enclosingLoopHeader(b) == nil {
+								field = fieldName(fa)
+								okApp = true
+							}
+						}
 					}
 				}
 			}
 		}
-		// the append is after the loop
-		okApp := false
-		for _, cl := range Calls(fn) {
-			if bi, isB := cl.Instr.Common().Value.(*ssa.Builtin); isB && bi.Name() == "append" && enclosingLoopHeader(cl.Block()) == nil {
-				okApp = true
+		// (A) a scan of that very list comparing ids, returning early on a match
+		ok := false
+		scansField := func(f *ssa.Function, g CmpGuard) string {
+			// the list element compared comes from an index into a load of a Snapshot field
+			for _, side := range []ssa.Value{g.X, g.Y} {
+				cv, isCall := side.(*ssa.Call)
+				if !isCall {
+					continue
+				}
+				var recv ssa.Value
+				if cv.Common().IsInvoke() {
+					recv = cv.Common().Value
+				} else if len(cv.Common().Args) > 0 {
+					recv = cv.Common().Args[0]
+				}
+				if ld, isLd := recv.(*ssa.UnOp); isLd {
+					if ia, isIA := ld.X.(*ssa.IndexAddr); isIA {
+						if _, fld, isF := loadOfField(ia.X); isF {
+							return fld
+						}
+					}
+				}
+			}
+			return ""
+		}
+		inLoopReturn := func(r *ssa.Return) bool {
+			return enclosingLoopHeader(r.Block()) != nil || len(r.Block().Preds) == 1 && enclosingLoopHeader(r.Block().Preds[0]) != nil
+		}
+		for _, g := range cmpGuards(fn, inLoopReturn) {
+			if g.Op == token.EQL && scansField(fn, g) == field && field != "" {
+				ok = true
+			}
+		}
+		// (B) a membership predicate over that very list, called with the id of the identity to add
+		bareReturn := func(r *ssa.Return) bool { // the early return: a block that stores nothing
+			for _, ins := range r.Block().Instrs {
+				if _, isSt := ins.(*ssa.Store); isSt {
+					return false
+				}
+			}
+			return true
+		}
+		for _, pg := range predGuards(fn, bareReturn) {
+			if !pg.FailsWhen || pg.Call.Common().StaticCallee() == nil {
+				continue
+			}
+			pred := pg.Call.Common().StaticCallee()
+			memberOf := ""
+			for _, g := range cmpGuards(pred, func(r *ssa.Return) bool {
+				k, isK := r.Results[0].(*ssa.Const)
+				return len(r.Results) == 1 && isK && k.Value != nil && k.Value.String() == "true"
+			}) {
+				if g.Op == token.EQL {
+					memberOf = scansField(pred, g)
+				}
+			}
+			args := pg.Call.Common().Args
+			idOfParam := false
+			if len(args) > 0 {
+				if idc, isCall := args[len(args)-1].(*ssa.Call); isCall {
+					if n, _ := callName(idc.Common()); strings.HasSuffix(n, ".Id") {
+						idOfParam = true
+					}
+				}
+			}
+			if memberOf == field && field != "" && idOfParam {
+				ok = true
 			}
 		}
 		c.Sites++
